@@ -205,6 +205,14 @@ draw_timeout(void)
 		return ((vh_chance(&R, 1, 2) ? 3000000000ULL : 4294967295ULL) * 1000000ULL);
 	if (vh_chance(&R, 1, 5))
 		return (vh_below(&R, 20000));
+	if (vh_chance(&R, 1, 25))
+		return (vh_below(&R, 4) * 1000000 + 999999);
+	/*
+	 * ... and around INT_MAX milliseconds (24.855 days), where the
+	 * conversion of the deadline into poll's int timeout has to clamp.
+	 */
+	if (vh_chance(&R, 1, 40))
+		return (2147483ULL * 1000000 + 640000 + vh_below(&R, 360000));
 	return (t[vh_below(&R, sizeof(t) / sizeof(t[0]))]);
 }
 
@@ -265,6 +273,19 @@ do_reg_t(uint64_t us)
 	if (r == NULL)
 		return;
 	r->timeout_us = us;
+	/*
+	 * Sometimes a double whose fraction lies within half a microsecond
+	 * below a whole second (s + 0.9999996 ...): it is s seconds and
+	 * 999999 microseconds (the fraction is truncated), never s seconds
+	 * and 0 microseconds.
+	 */
+	if (us >= 999999 && us % 1000000 == 999999 && us < 4000000) {
+		static const double fr[] = { 0.9999996, 0.9999997, 0.9999999 };
+
+		dbl = 1;
+		r->cookie = events_timer_register_double(callback, r,
+		    (double)(us / 1000000) + fr[vh_below(&R, 3)]);
+	} else
 	/* Dyadic fractions convert to a timeval exactly. */
 	if ((us % 15625) == 0 && vh_chance(&R, 1, 2)) {
 		dbl = 1;
